@@ -5,6 +5,7 @@ import sys
 from ..astutil import call_attr, dotted, statements, calls, walk_body
 from ..model import AnalysisError
 from ..report import control
+from ..facts import Facts, same_cases
 from ..siblings import Roles
 from ..sym import Env, Poly, sym, forward, sym_at
 from .. import variants
@@ -252,6 +253,22 @@ KFAMILY = {
 }
 
 
+ENCODER_CLAUSES = {
+    "AtLeastKInARow": [
+        (("(len(var_list) == self.k)", "not(sublists)"), "extend [Iff(var_list[0], _b0) for _b0 in var_list[1:]]"),
+        (("(len(var_list) != self.k)", "not(sublists)"), "extend [Not(_b0) for _b0 in var_list]"),
+        (("sublists",), "append If(sublists[0][0], And(sublists[0][1:-1]))"),
+        (("sublists",), "append If(And([Not(sublist[0]), sublist[1]]), And(sublist[2:]))"),
+        (("sublists",), "append If(Not(sublists[-1][1]), Not(Or(sublists[-1][2:])))"),
+    ],
+    "ExactlyKInARow": [
+        (("not(sublists)",), "extend [Not(_b0) for _b0 in var_list]"),
+        (("sublists",), "append If(ite((0 < idx), ite((1 < len([Not(sublists[-1 + idx][0]), l[0]])), And([Not(sublists[-1 + idx][0]), l[0]]), [Not(sublists[-1 + idx][0]), l[0]][0]), l[0]), ite((idx < -1 + len(sublists)), ite((1 < len(concat(l[1:], [Not(sublists[1 + idx][-1])]))), And(concat(l[1:], [Not(sublists[1 + idx][-1])])), concat(l[1:], [Not(sublists[1 + idx][-1])])[0]), ite((1 < len(l[1:])), And(l[1:]), l[-1 + self.k])))"),
+        (("(1 < len(sublists[-1]))", "sublists"), "append If(list(reversed(sublists[-1]))[i], list(reversed(sublists[-1]))[1 + i])"),
+    ],
+}
+
+
 def pair_kinarow(ctx, R="C07.pair"):
     base_c = ctx.fn("constraint:_KInARow.potential_sample_conforms")
     rb = Roles(base_c)
@@ -314,6 +331,17 @@ def pair_kinarow(ctx, R="C07.pair"):
         ctx.check(t == "self._potential_counts_conform_individually(counts, %s)" % cmp_, R, chk, "%s comparator %s" % (cname, t),
                   "%s judges run lengths with %s" % (cname, cmp_),
                   "%s judges run lengths with `%s`, its encoder means %s" % (cname, t, cmp_), r[0] if r else None)
+
+    # the clauses each run-length encoder emits, by case: a window too short for a single sublist (no sublists) admits the
+    # level only as a run that fills a window of exactly k trials (AtLeastKInARow) or not at all (ExactlyKInARow); otherwise
+    # the start / transition / end implications
+    for cname, table in ENCODER_CLAUSES.items():
+        enc = ctx.fn("constraint:%s.apply_to_backend_request" % cname)
+        got = Facts(enc).emits("implications")
+        ctx.check(same_cases(got, table), R, enc, "%s emitted clauses by case (%d)" % (cname, len(got)),
+                  "%s emits, per window: no-sublist windows -> %s; otherwise its start / transition / end implications" % (
+                      cname, "whole-window run only if the window has exactly k trials, else the level is excluded" if cname == "AtLeastKInARow" else "the level is excluded"),
+                  "%s emits other clauses than its run-length checker means: found %s, expected %s" % (cname, got, sorted(table)))
 
     # ExactlyK: EQ k over the window's variables <-> sum(counts) == k
     enc, chk = ctx.fn("constraint:ExactlyK.apply_to_backend_request"), ctx.fn("constraint:ExactlyK._potential_counts_conform")
